@@ -434,10 +434,8 @@ proof fn lemma_sum_unpacked_is_sum_len(terms: Seq<CASReconstructionTerm>, data: 
 //   xorb_chunk_bytes(h, s, e)   unpacked bytes of chunks [s, e) of xorb h
 //   range_data(url, url_range)  what the blob store serves for a GET of `url` with `Range: url_range`, decoded
 //                               (`download_range`: data + chunk_byte_indices)
-//   url_range_of(url)           the byte range a (presigned) url is issued for
 uninterp spec fn xorb_chunk_bytes(h: HexMerkleHash, s: int, e: int) -> Seq<u8>;
 uninterp spec fn range_data(url: Seq<char>, url_range: HttpRange) -> (Seq<u8>, Seq<u32>);
-uninterp spec fn url_range_of(url: Seq<char>) -> HttpRange;
 uninterp spec fn hex_string(h: HexMerkleHash) -> Seq<char>;
 impl HexMerkleHash {   // `Display`/`ToString` of the hash (hex text)
     #[verifier::external_body] fn to_string(&self) -> (r: String) ensures r@ == hex_string(*self), { unimplemented!() }
@@ -453,8 +451,8 @@ spec fn fetched_ok(data: Seq<u8>, cbi: Seq<u32>, nchunks: int) -> bool {
 spec fn entry_ok(h: HexMerkleHash, e: CASReconstructionFetchInfo) -> bool {
     let d = range_data(e.url@, e.url_range);
     &&& e.range.start <= e.range.end
-    // the url is issued for exactly this byte range (see notes: the client code itself never checks this)
-    &&& e.url_range == url_range_of(e.url@)
+    // a url contains no space character (so "<url> <range header>" splits uniquely)
+    &&& no_space(e.url@)
     &&& fetched_ok(d.0, d.1, e.range.end - e.range.start)
     // the served chunks are the xorb's chunks e.range
     &&& forall|a: int, b: int| 0 <= a <= b <= e.range.end - e.range.start ==>
@@ -469,13 +467,49 @@ spec fn term_payload(term: CASReconstructionTerm) -> Seq<u8> { xorb_chunk_bytes(
 // ---- single flight -------------------------------------------------------------------------------------------------------
 // `Group::work(key, fut)`: concurrent callers with the same key share ONE execution; a caller gets the result of SOME task
 // submitted under its key — possibly another caller's.  Every submission goes through this one call site, whose obligation
-// (the stub's precondition, discharged in get_one_term) is: the key is `flight_key(url, url_range)` of the download it submits.
-// `flight_key` must determine the download: lemma_flight_key_determines (proved, over the domain `url_range_of`).
-spec fn flight_key(url: Seq<char>, url_range: HttpRange) -> Seq<char> { url }
-proof fn lemma_flight_key_determines(u1: Seq<char>, r1: HttpRange, u2: Seq<char>, r2: HttpRange)
-    requires r1 == url_range_of(u1), r2 == url_range_of(u2), flight_key(u1, r1) == flight_key(u2, r2),
-    ensures u1 == u2, r1 == r2,
+// (the stub's precondition, discharged in get_one_term) is: the key is `spec_flight_key(url, url_range)` = "<url> <range header>" of the
+// download it submits.
+// `flight_key` must determine the download: lemma_flight_key_determines (PROVED; needs only that a url holds no space and that
+// the Range header text determines the range).
+spec fn no_space(s: Seq<char>) -> bool { forall|i: int| 0 <= i < s.len() ==> s[i] != ' ' }
+// `range_header(range)` = `format!("bytes={}-{}", range.start, range.end)`: its body is a single format!, which Verus cannot parse, so
+// extracting it would outline the whole body and prove nothing — it is a stub: an uninterpreted text that determines (start, end)
+uninterp spec fn spec_range_header(rg: HttpRange) -> Seq<char>;
+#[verifier::external_body]
+proof fn axiom_range_header_injective(a: HttpRange, b: HttpRange)
+    ensures spec_range_header(a) == spec_range_header(b) ==> a == b,
 {}
+#[verifier::external_body]
+fn range_header(range: &HttpRange) -> (r: String) ensures r@ == spec_range_header(*range), { unimplemented!() }
+// R7 outline of `format!("{} {}", a, b)`: ASSUMED to render a, one space, b
+#[verifier::external_body]
+fn vx_key(a: &String, b: String) -> (r: String) ensures r@ == a@ + seq![' '] + b@, { format!("{} {}", a, b) }
+spec fn spec_flight_key(url: Seq<char>, url_range: HttpRange) -> Seq<char> { url + seq![' '] + spec_range_header(url_range) }
+proof fn lemma_pair_injective(a1: Seq<char>, b1: Seq<char>, a2: Seq<char>, b2: Seq<char>)
+    requires no_space(a1), no_space(a2), a1 + seq![' '] + b1 == a2 + seq![' '] + b2,
+    ensures a1 == a2, b1 == b2,
+{
+    let l = a1 + seq![' '] + b1;
+    let r = a2 + seq![' '] + b2;
+    let n1 = a1.len() as int; let n2 = a2.len() as int;
+    assert(l[n1] == ' '); assert(r[n2] == ' ');
+    if n1 < n2 { assert(r[n1] == a2[n1]); assert(false); }
+    if n2 < n1 { assert(l[n2] == a1[n2]); assert(false); }
+    assert(n1 == n2);
+    assert(l.len() == n1 + 1 + b1.len()); assert(r.len() == n2 + 1 + b2.len());
+    assert(b1.len() == b2.len());
+    assert forall|i: int| 0 <= i < n1 implies a1[i] == a2[i] by { assert(l[i] == a1[i]); assert(r[i] == a2[i]); }
+    assert(a1 =~= a2);
+    assert forall|j: int| 0 <= j < b1.len() implies b1[j] == b2[j] by { assert(l[n1 + 1 + j] == b1[j]); assert(r[n1 + 1 + j] == b2[j]); }
+    assert(b1 =~= b2);
+}
+proof fn lemma_flight_key_determines(u1: Seq<char>, r1: HttpRange, u2: Seq<char>, r2: HttpRange)
+    requires no_space(u1), no_space(u2), spec_flight_key(u1, r1) == spec_flight_key(u2, r2),
+    ensures u1 == u2, r1 == r2,
+{
+    lemma_pair_injective(u1, spec_range_header(r1), u2, spec_range_header(r2));
+    axiom_range_header_injective(r1, r2);
+}
 // the future `download_range(http_client, fetch_term, hash)`: GET fetch_term.url with Range fetch_term.url_range, decode the chunks
 #[verifier::external_body] struct DownloadFut { _p: () }
 impl DownloadFut { uninterp spec fn url(&self) -> Seq<char>; uninterp spec fn url_range(&self) -> HttpRange; }
@@ -488,10 +522,10 @@ impl SingleFlightStub {
     fn work_dump_caller_info(&self, key: &String, fut: DownloadFut) -> (r: Result<(Vec<u8>, Vec<u32>)>)
         requires
             // OBLIGATION at the call site: the key is the flight key of what this caller downloads
-            /*@C17*/ key@ == flight_key(fut.url(), fut.url_range()),
+            /*@C17*/ key@ == spec_flight_key(fut.url(), fut.url_range()),
         ensures
             // the result of SOME download submitted under this key (each submitted by this call site, hence under its flight key)
-            r matches Ok(p) ==> exists|u: Seq<char>, rg: HttpRange| rg == url_range_of(u) && #[trigger] flight_key(u, rg) == key@
+            r matches Ok(p) ==> exists|u: Seq<char>, rg: HttpRange| no_space(u) && #[trigger] spec_flight_key(u, rg) == key@
                 && (p.0@, p.1@) == range_data(u, rg),
     { unimplemented!() }
 }
@@ -553,6 +587,7 @@ fn vx_find_fetch_term<'a>(hash_fetch_info: &'a Vec<CASReconstructionFetchInfo>, 
 //@ sig `fn get_one_term(http_client: HttpStub, chunk_cache: Option<CacheStub>, term: CASReconstructionTerm, fetch_info: FetchInfoStub, range_download_single_flight: SingleFlightStub) -> (r: Result<Vec<u8>>)`
 //@ subst `term.hash.into()` => `vx_into_merklehash(term.hash)` :: R11 stub for `From<HexMerkleHash> for MerkleHash` (newtype unwrap)
 //@ subst `hash_fetch_info.iter().find(|fterm| fterm.range.start <= term.range.start && fterm.range.end >= term.range.end)` => `vx_find_fetch_term(hash_fetch_info, &term)` :: R7 outline of iterator find with a closure; contract assumed (an element satisfying the predicate)
+//@ optsubst `format!("{} {}", fetch_term.url, range_header(&fetch_term.url_range))` => `vx_key(&fetch_term.url, range_header(&fetch_term.url_range))` :: R7 outline: two-argument format! (a, one space, b); contract assumed
 //@ subst `format!("result term data length {} did not match expected value {}", data.len(), term.unpacked_length)` => `vx_fmt_len_mismatch(data.len(), term.unpacked_length)` :: R7 outline: format! of an error message
 //@ contract
     requires
@@ -578,7 +613,7 @@ fn vx_find_fetch_term<'a>(hash_fetch_info: &'a Vec<CASReconstructionFetchInfo>, 
     let ghost cbi0 = chunk_byte_indices@;
     proof {
         // single flight: the shared result is THIS caller's download because the key determines (url, url_range)
-        let (u, rg) = choose|u: Seq<char>, rg: HttpRange| rg == url_range_of(u) && #[trigger] flight_key(u, rg) == fetch_term.url@ && (data0, cbi0) == range_data(u, rg);
+        let (u, rg) = choose|u: Seq<char>, rg: HttpRange| no_space(u) && #[trigger] spec_flight_key(u, rg) == spec_flight_key(fetch_term.url@, fetch_term.url_range) && (data0, cbi0) == range_data(u, rg);
         lemma_flight_key_determines(u, rg, fetch_term.url@, fetch_term.url_range);
         /*@C17*/ assert((data0, cbi0) == range_data(fetch_term.url@, fetch_term.url_range));
         let n = fetch_term.range.end - fetch_term.range.start;
